@@ -233,6 +233,68 @@ m("names-lowering-uses-function-name", ["C09"], ["NAMES|"], IR,
   "            E::Function { body, params, .. } => {\n                let mut body = body.clone();",
   "            E::Function { body, params, name, .. } => {\n                let _dbg = name.len();\n                let mut body = body.clone();")
 
+
+# ---- rules added after the second seeding round
+m("pair-assign-add-one-sided", ["C03", "C02"], ["OPERAND-PAIR|statement|Assignment/Add"], TC,
+  "                        self.add_constraint(expression_ty, *span, Constraint::Add(target_ty));\n                        self.add_constraint(target_ty, *span, Constraint::Add(expression_ty));",
+  "                        self.add_constraint(target_ty, *span, Constraint::Add(expression_ty));")
+m("twin-pair-mul-lines-swapped", ["C03", "C02"], "silent", TC,
+  "                        self.add_constraint(expression_ty, *span, Constraint::Mul(target_ty));\n                        self.add_constraint(target_ty, *span, Constraint::Mul(expression_ty));",
+  "                        self.add_constraint(target_ty, *span, Constraint::Mul(expression_ty));\n                        self.add_constraint(expression_ty, *span, Constraint::Mul(target_ty));")
+m("fieldsets-missing-in-a-tolerated", ["C02", "C03"], ["FIELD-SETS|sub_unify|Blob|b_fields-subset-of-a_fields"], TC,
+  "                            Some(b_ty) => *b_ty,\n                            None => {\n                                return err_type_error!(\n                                    self,\n                                    span,\n                                    TypeError::MissingField {\n                                        blob: a_blob.clone(),\n                                        field: b_field.clone()\n                                    }\n                                )\n                                .help(\n                                    self,\n                                    a_span,\n                                    \"Defined here\".to_string(),\n                                );\n                            }",
+  "                            Some(b_ty) => *b_ty,\n                            None => {\n                                let _ = (&a_blob, &a_span);\n                                continue;\n                            }")
+m("twin-fieldsets-keys-iterator", ["C02", "C03"], "silent", TC,
+  "                    for (a_field, _) in a_fields.iter() {\n                        if !b_fields.contains_key(a_field) {",
+  "                    for a_field in a_fields.keys() {\n                        if !b_fields.contains_key(a_field) {")
+m("nodespan-index-after-bracket", ["C15"], ["NODE-SPAN|assignable_index|Assignable"], PPA,
+  "    let ctx = expect!(ctx, T::RightBracket, \"Expected ']' after index\");\n\n    use AssignableKind::Index;\n    let result = Assignable {\n        span,",
+  "    let ctx = expect!(ctx, T::RightBracket, \"Expected ']' after index\");\n    let _ = span;\n\n    use AssignableKind::Index;\n    let result = Assignable {\n        span: ctx.span(),")
+m("twin-nodespan-entry-alias", ["C15"], "silent", PPA,
+  "fn assignable_index<'t>(ctx: Context<'t>, indexed: Assignable) -> ParseResult<'t, Assignable> {\n    let span = ctx.span();",
+  "fn assignable_index<'t>(ctx: Context<'t>, indexed: Assignable) -> ParseResult<'t, Assignable> {\n    let entry = ctx;\n    let span = entry.span();")
+m("guardloc-inner-statement-after", ["C15"], ["GUARD-LOCATION|inner_statement|"], PST,
+  "            let err = syntax_error!(ctx, \"Only valid as an outer statement\");",
+  "            let err = syntax_error!(new_ctx, \"Only valid as an outer statement\");")
+m("namespan-type-at-outer-span", ["C15"], ["NAME-SPAN|Resolver::ty_assignable|"], NR,
+  "                    None => raise_resolution_error! {\n                        self,\n                        ty.span,\n                        \"No type named {:?}\",",
+  "                    None => raise_resolution_error! {\n                        self,\n                        span,\n                        \"No type named {:?}\",")
+m("cursor-skip-if-moves-cursor", ["C14"], ["CURSOR|writers"], PPA,
+  "        if self.token() == &token {\n            self.skip(1)\n        } else {",
+  "        if self.token() == &token {\n            let mut new = *self;\n            new.curr += 1;\n            new\n        } else {")
+m("cbroles-dict-foreach-passes-key", ["C18"], ["CALLBACK-ROLES|dict.dict_for_each|"], PRE,
+  "function dict_for_each(dict, f)\n    for _k, v in pairs(dict) do\n        f(v)", "function dict_for_each(dict, f)\n    for _k, v in pairs(dict) do\n        f(_k)")
+m("twin-cbroles-loop-variable-renamed", ["C18"], "silent", PRE,
+  "function list_for_each(l, f)\n    for _, v in pairs(l) do\n        f(v)", "function list_for_each(l, f)\n    for _, item in pairs(l) do\n        f(item)")
+m("looplabel-body-keeps-outer-context", ["C06"], ["LOOP-LABEL|IRCodeGen::statement|Loop|"], IR,
+  "                    .map(|stmt| self.statement(&stmt, IRContext { closest_loop: l, ..ctx }))",
+  "                    .map(|stmt| self.statement(&stmt, ctx))")
+m("twin-looplabel-context-in-a-let", ["C06"], "silent", IR,
+  "                let body = body\n                    .iter()\n                    .map(|stmt| self.statement(&stmt, IRContext { closest_loop: l, ..ctx }))",
+  "                let inner = IRContext { closest_loop: l, ..ctx };\n                let body = body\n                    .iter()\n                    .map(|stmt| self.statement(&stmt, inner))")
+m("collision-fromuse-kind-only", ["C12"], ["COLLISION|FromUse|compares-entries"], NR,
+  "                            Entry::Occupied(occ) if occ.get() != &to_insert => {\n                                let span = match occ.get() {\n                                    Name::Name(r) => self.variables[*r].definition,\n                                    Name::Namespace(_, span) => *span,\n                                };\n                                let err = resolution_error!(\n                                    self,\n                                    var.span,",
+  "                            Entry::Occupied(occ) if !matches!(occ.get(), Name::Name(_)) => {\n                                let span = match occ.get() {\n                                    Name::Name(r) => self.variables[*r].definition,\n                                    Name::Namespace(_, span) => *span,\n                                };\n                                let err = resolution_error!(\n                                    self,\n                                    var.span,")
+m("twin-collision-operands-swapped", ["C12"], "silent", NR,
+  "                            Entry::Occupied(occ) if occ.get() != &to_insert => {\n                                let span = match occ.get() {\n                                    Name::Name(r) => self.variables[*r].definition,\n                                    Name::Namespace(_, span) => *span,\n                                };\n                                let err = resolution_error!(\n                                    self,\n                                    var.span,",
+  "                            Entry::Occupied(occ) if &to_insert != occ.get() => {\n                                let span = match occ.get() {\n                                    Name::Name(r) => self.variables[*r].definition,\n                                    Name::Namespace(_, span) => *span,\n                                };\n                                let err = resolution_error!(\n                                    self,\n                                    var.span,")
+m("drv-output-not-truncated", ["C20"], ["ATOMIC|output-truncated"], LIB,
+  "            File::create(s)\n", "            std::fs::OpenOptions::new().write(true).create(true).open(s)\n")
+m("twin-drv-openoptions-truncate", ["C20"], "silent", LIB,
+  "            File::create(s)\n", "            std::fs::OpenOptions::new().write(true).create(true).truncate(true).open(s)\n")
+m("twin-annotation-purity-renamed", ["C04", "C08"], "silent", TC,
+  "                let purity = is_pure.then(|| Purity::Pure).unwrap_or(Purity::Undefined);\n                Type::Function(params, ret, purity)",
+  "                let p = if *is_pure { Purity::Pure } else { Purity::Undefined };\n                Type::Function(params, ret, p)")
+m("annotation-fn-resolves-impure", ["C04", "C08"], ["PURITY-UNIFY|inner_resolve_type|annotation-purity", "ANNOTATION-PERMISSIVE|"], TC,
+  "                let purity = is_pure.then(|| Purity::Pure).unwrap_or(Purity::Undefined);",
+  "                let purity = is_pure.then(|| Purity::Pure).unwrap_or(Purity::Impure);")
+m("start-missing-is-ok", ["C07", "C05"], ["CONTRACT|K10|absent=>Err", "START|solve|no-start=>Err"], TC,
+  "            None => {\n                // TODO[ed]: Is this unreachable?\n                err_type_error!(\n                    self,\n                    Span::zero(0),\n                    TypeError::Exotic,\n                    \"Expected a start function in the main module - but couldn't find it\"\n                )\n            }",
+  "            None => Ok(()),")
+m("dep-blob-fields-not-edges", ["C11", "C03"], ["VISIT-dep|dependency::statement_dependencies|Blob.fields"], DEP,
+  "        S::Blob { var, fields: types, .. } | S::Enum { var, variants: types, .. } => {",
+  "        S::Blob { .. } => BTreeSet::new(),\n        S::Enum { var, variants: types, .. } => {")
+
 for w in W:
     with open(os.path.join(OUT, w["name"] + ".json"), "w") as fh:
         json.dump(w, fh, indent=1)
